@@ -370,14 +370,42 @@ func c03Step(ms *memstore.Store, op c03Op, col *evid.Collector) (string, string)
 			}
 		}
 	}
-	// the real readers must walk the result end to end (cold cache)
-	rsl.ResetCacheForVerif()
-	if len(after) > 0 {
-		if _, _, e := rsl.GetFirstEntry(ms); e != nil {
-			return "C03:readers-cannot-walk", fmt.Sprintf("%s: rsl.GetFirstEntry fails on the resulting log: %v", op.Name, e)
+	// the real readers must walk the result end to end, first with the
+	// process-wide cache as the operations left it, then cold
+	for _, cold := range []bool{false, true} {
+		if cold {
+			rsl.ResetCacheForVerif()
+		}
+		if len(after) > 0 {
+			if _, _, e := rsl.GetFirstEntry(ms); e != nil {
+				return "C03:readers-cannot-walk", fmt.Sprintf("%s: rsl.GetFirstEntry fails on the resulting log (cold cache=%v): %v", op.Name, cold, e)
+			}
 		}
 	}
 	return "", ""
+}
+
+// c03ReplayPath rebuilds the state reached by path within ONE lifetime of the
+// process-wide rsl cache (reset first), so that the judged operation runs with
+// the cache exactly as a single process executing the whole path would have it.
+func c03ReplayPath(start string, path []string, thorough bool) (*memstore.Store, bool) {
+	rsl.ResetCacheForVerif()
+	ms, w := c03Start(start)
+	for _, name := range path {
+		var found *c03Op
+		for _, op := range c03Ops(ms, w, thorough) {
+			if op.Name == name {
+				op := op
+				found = &op
+				break
+			}
+		}
+		if found == nil {
+			return nil, false
+		}
+		_ = found.run(ms)
+	}
+	return ms, true
 }
 
 func TestC03(t *testing.T) {
@@ -458,7 +486,15 @@ func TestC03(t *testing.T) {
 					if col.Expired() {
 						return
 					}
-					ms := n.ms.Snapshot()
+					// One process-cache lifetime per path: reset the rsl
+					// cache, replay the path from the start state (the
+					// snapshot of the parent state is only used for
+					// deduplication), then apply and judge the new operation.
+					ms, ok := c03ReplayPath(start, n.path, thorough)
+					if !ok || c03Key(ms) != c03Key(n.ms) {
+						col.Fail(fmt.Sprintf("path replay diverged for %s %v", start, n.path))
+						return
+					}
 					sig, what := c03Step(ms, op, col)
 					col.Inc("transitions")
 					col.Inc("evaluations")
